@@ -14,8 +14,10 @@ CLAIMED = {
                 "The backward step is proved too (U07.back): tighten_variable, tighten_expression (every arm: variable, abs, min, max, + - , constant * and /, negation) and tighten_constraint_expression never cut off a point of the current box "
                 "at which the expression takes a value in the required range, and record infeasibility only when no such point exists; because this holds for every box it holds at every step, so stopping at the step limit is covered. "
                 "The affine-row step tighten_affine_form (term ranges, prefix / suffix sums, (required - others) / c per variable) is proved under the same statement (U07.aff), given a well-formed affine form. "
-                "NOT decided deductively: AffineForm::from_exp / merge / scale, the propagation loop (queue, dependencies), from_domain, apply_to_domain (publication, integer rounding): these are covered only by a BOUNDED search over "
-                "the whole real analyser (12 systems x 3 domains x 3 step limits). That search exposes one KNOWN FINDING (recorded, not repaired): real bounds inexact in floating point are published without outward rounding. "
+                "That form is itself under contract (U07.form): AffineForm::from_exp / from_constraint return a form whose value IS the expression's value (lhs - rhs for a constraint) wherever that is defined, with finite non-zero coefficients only, "
+                "and AffineForm::merge adds multiplier x other term by term over the insertion-ordered map (insert / update / removal of cancelling coefficients); AffineForm::scale (retain with a mutating closure, read as a position loop by rule R53) multiplies every coefficient and the constant and drops the coefficients that become zero (U07.scale). "
+                "NOT decided deductively: the propagation loop (queue, dependencies), from_domain, apply_to_domain (publication, integer rounding): these are covered only by a BOUNDED search over "
+                "the whole real analyser (18 systems x 3 domains x 3 step limits). That search exposes one KNOWN FINDING (recorded, not repaired): real bounds inexact in floating point are published without outward rounding. "
                 "Proof level because the statement is a for-all over reals and infinities that no grid of tests covers.",
         "note": "Trusted: prelude/f64_layer.rs (f64 treated as exact extended reals, IEEE special-value tables). Rounding error of finite arithmetic is out of reach and said so.",
         "technique": "Verus contracts (requires/ensures + ghost lemmas, structural induction for bounds_of) woven into functions extracted from bounds.rs on every run; bounded executable-postcondition search for the assumed arms",
@@ -145,7 +147,8 @@ CLAIMED["C10"] = {
             "Idempotence and the behaviour on abs/min/max-wrapped divisions are checked only by a BOUNDED search on the real code (labelled). "
             "KNOWN FINDING (recorded, not repaired: the repair breaks an existing test): simplify_logic_nary returns a single remaining operand without its connective, so `x and 1` becomes `x`, which changes the value for every operand that is not 0/1-valued; "
             "the bounded search (now over logic nodes with non-0/1 operands too) reports it as one entry keyed by that call site and still reports every failure it does not explain. "
-            "NOT decided: the n-ary and / or arms beyond that finding and the min / max arms (assumed arms), "
+            "The min / max arms are proved too (U10.simpm): an all-constant list folds to its smallest / largest constant (from +/- infinity), otherwise the operands are simplified in place, value preserved wherever the original is defined. "
+            "NOT decided: the n-ary and / or arms beyond that finding (assumed arms), "
             "termination, and the constant-spelling sentence of the property (bound inference before simplification).",
     "note": "Trusted: prelude/f64_layer.rs (floats as exact reals: a rewrite that is exact over the reals may still change a rounded result). Assumed arms are listed in the evidence. "
             "Exp::simplify is split over five queries (binary / unary / logic arms, two clause groups) because the joint query is unstable in the solver.",
@@ -208,7 +211,7 @@ CLAIMED["C12"] = {
 CLAIMED["C20"] = {
     "category": "exploration",
     "text": "BOUNDED only (labelled; nothing here is counted as proved): the sensitivities are computed inside clarabel / good_lp and rooc forwards them by row name, so no contract on repository code decides the sign convention or the pairing of prices with rows. "
-            "The statement is executed instead on the real Clarabel path: for 6 row sets x 5 objectives x min / max x 2 offsets (two continuous variables; <=, >= and = rows, slack rows, an unnamed row) the reported shadow price of every named row is compared with the "
+            "The statement is executed instead on the real Clarabel path: for 9 row sets x 5 objectives x min / max x 2 offsets (two continuous variables; <=, >= and = rows, slack rows, unnamed rows last, first and between named ones) the reported shadow price of every named row is compared with the "
             "central finite difference of the optimal value with respect to that row's right-hand side (base points with a kink are skipped: the property excludes degenerate optima); inactive rows must report zero, unnamed rows none, every named row one.",
     "note": "Bound: the corpus in units/U20.dual/witness.rs; step 1e-3, agreement within 1e-4 relative. Trusted: Clarabel's optimum for the base and perturbed models. The builder-side accessors (BuilderSolution::shadow_price) forward to the same map.",
     "technique": "bounded executable check of the reported duals against finite-difference sensitivities on the real solver path (stand-in where no contract can reach; labelled bounded)",
@@ -240,7 +243,7 @@ CLAIMED["C09"] = {
 CLAIMED["C06"] = {
     "category": "exploration",
     "text": "BOUNDED only (labelled; nothing here is counted as proved): the property relates two parses, and the expansion engine works on parser IL with dyn Fn callbacks, scope frames and evaluated iterables that Verus does not accept and Kani cannot execute. "
-            "The statement is executed instead on 16 hand-written pairs (compact text, hand-unrolled text) covering sum over ranges / arrays / matrices / dependent ranges, for-quantified named rows, enumerate, zip, len, array access, prod / avg / min / max / all / any / xor blocks, "
+            "The statement is executed instead on 17 hand-written pairs (compact text, hand-unrolled text) covering sum over ranges (exclusive, inclusive, negative bounds) / arrays / matrices / dependent ranges, for-quantified named rows, enumerate, zip, len, array access, prod / avg / min / max / all / any / xor blocks, "
             "graph nodes / weighted edges / neighbour edges, indexed and compound variable names and multi-index declarations: both texts of a pair must compile to the same linear model (rows in order with names, coefficients and right-hand sides; objective; variables; domains).",
     "note": "Bound: the pairs in units/U06.unroll/witness.rs. Trusted: that each unrolled text is the iteration-order unrolling of its compact text (written by hand from the language documentation).",
     "technique": "bounded executable check of compact vs hand-unrolled texts through the real front end (stand-in where no contract can reach; labelled bounded)",
